@@ -531,8 +531,12 @@ impl Visit<'_> for TraitBoundsVisitor {
     }
 
     fn visit_predicate_type(&mut self, node: &syn::PredicateType) {
-        self.curr_type_param = Some((&node.bounded_ty).into());
-        syn::visit::visit_predicate_type(self, node);
+        // NOTE: Only the bounds of the predicate are looked at. Bounds nested in the
+        // bounded type (e.g. `Box<dyn Trait<Assoc = X>>: Marker`) don't bound that type
+        for bound in &node.bounds {
+            self.curr_type_param = Some((&node.bounded_ty).into());
+            self.visit_type_param_bound(bound);
+        }
     }
 
     fn visit_trait_bound(&mut self, node: &syn::TraitBound) {
